@@ -324,7 +324,13 @@ def run(pid=None):
                     errors.append(str(ex))
                 failed = True
         if failed:
-            continue  # keep the last good file so the remaining development still builds
+            # keep the last good file so the remaining development (extracted model, driver, correspondence, search) still
+            # builds; an alternate tree (VERIF_REPO) starts with an empty `generated`: take the main tree's last good file
+            path = os.path.join(GEN, "Src_%s.v" % g)
+            main = os.path.join(os.path.dirname(os.path.dirname(os.path.abspath(__file__))), "coq", "generated", "Src_%s.v" % g)
+            if not os.path.exists(path) and os.path.exists(main) and os.path.abspath(main) != os.path.abspath(path):
+                open(path, "w").write(open(main).read())
+            continue
         txt = "\n".join(parts)
         path = os.path.join(GEN, "Src_%s.v" % g)
         if not os.path.exists(path) or open(path).read() != txt:
